@@ -58,6 +58,9 @@ def modname(case_id):
     return "c_" + re.sub(r"[^0-9a-zA-Z_]", "_", case_id)
 
 
+PROBE_TIMEOUT_S = float(os.environ.get("VERIF_PROBE_TIMEOUT", "300"))
+
+
 class Case:
     def __init__(self, case_id, code, types=None, extra="", asserts=None, wrap_mod=None):
         """code: Rust source of the generated module (pretty-printed token stream).
@@ -295,7 +298,14 @@ class Batch:
             with open(pf, "w") as f:
                 for p in pending:
                     f.write(json.dumps(p) + "\n")
-            p = subprocess.run([exe, pf], stdout=subprocess.PIPE, stderr=subprocess.PIPE)
+            # generated code that never returns (e.g. mutually recursive default functions) must end in a verdict for the probe in flight
+            try:
+                p = subprocess.run([exe, pf], stdout=subprocess.PIPE, stderr=subprocess.PIPE, timeout=PROBE_TIMEOUT_S + 0.05 * len(pending))
+            except subprocess.TimeoutExpired as te:
+                class _P:
+                    pass
+                p = _P()
+                p.stdout, p.stderr, p.returncode = te.stdout or b"", (te.stderr or b"") + b"\n[verif] probe driver killed: timeout", -9
             started = None
             for line in p.stdout.decode("utf-8", errors="replace").split("\n"):
                 if not line.strip():
